@@ -9,8 +9,12 @@ void harness(void)
   size_t pl = nondet_size();
   __CPROVER_assume(pl <= TJV_MAXLEN);
   tjw_pl = pl;
-  unsigned char *p = malloc(pl);
+  /* like the in-place decrypt layout: 8 more bytes (the received tag) follow the plaintext region in the SAME object;
+     they are outside check_tag's frame and must be preserved */
+  unsigned char *p = malloc(pl + 8);
   __CPROVER_assume(p);
+  unsigned gt = nondet_uint(); __CPROVER_assume(gt < 8);
+  unsigned char tail_before = p[pl + gt];
   unsigned char t1[8], t2[8];
   tjv_k = nondet_size(); tjv_j = 0;
   __CPROVER_assume(tjv_k < pl || pl == 0);
@@ -20,6 +24,7 @@ void harness(void)
   int r = tinyjambu_aead_check_tag(p, pl, t1, t2, 8);
   TJV_REACH_HERE("after check_tag(8)");
   __CPROVER_assert(r == (same ? 0 : -1), "C03: check_tag returns 0 iff all 8 tag bytes are equal, else -1");
+  __CPROVER_assert(p[pl + gt] == tail_before, "C06: check_tag changes nothing behind plaintext[0..len) (in place: the tag bytes)");
   if (pl) {
     __CPROVER_assert(same ==> p[tjv_k] == before, "C04: accept leaves every plaintext byte unchanged");
     __CPROVER_assert(!same ==> p[tjv_k] == 0, "C04: reject zeroes every plaintext byte");
